@@ -13,7 +13,44 @@ pub open spec fn f64_is_finite(x: f64) -> bool {
 /// IEEE comparison (opaque)
 pub uninterp spec fn f64_cmp_spec(a: f64, b: f64) -> Option<core::cmp::Ordering>;
 
-pub assume_specification[ f64::abs ](x: f64) -> f64;
+/// the real a finite float denotes
+pub uninterp spec fn f64_real(x: f64) -> real;
+
+/// sign bit clear
+pub uninterp spec fn f64_is_pos(x: f64) -> bool;
+
+pub open spec fn cmp_real(a: real, b: real) -> core::cmp::Ordering {
+    if a < b {
+        core::cmp::Ordering::Less
+    } else if a == b {
+        core::cmp::Ordering::Equal
+    } else {
+        core::cmp::Ordering::Greater
+    }
+}
+
+/// IEEE-754 facts about comparison (trusted, A-float): NaN is unordered, finite floats compare as
+/// the reals they denote, +inf is greater than every finite float
+pub broadcast axiom fn axiom_f64_cmp(a: f64, b: f64)
+    ensures
+        !(f64_is_nan(a) && f64_is_infinite(a)),
+        (f64_is_nan(a) || f64_is_nan(b)) ==> #[trigger] f64_cmp_spec(a, b) is None,
+        f64_is_finite(a) && f64_is_finite(b) ==> f64_cmp_spec(a, b) == Some(cmp_real(f64_real(a), f64_real(b))),
+        f64_is_infinite(a) && f64_is_pos(a) && f64_is_finite(b) ==> f64_cmp_spec(a, b) == Some(core::cmp::Ordering::Greater),
+;
+
+/// |x| as IEEE defines it
+pub open spec fn f64_abs_rel(x: f64, r: f64) -> bool {
+    &&& f64_is_nan(x) == f64_is_nan(r)
+    &&& f64_is_infinite(x) == f64_is_infinite(r)
+    &&& (f64_is_infinite(x) ==> f64_is_pos(r))
+    &&& (f64_is_finite(x) ==> f64_real(r) == (if f64_real(x) >= 0real { f64_real(x) } else { -f64_real(x) }))
+}
+
+pub assume_specification[ f64::abs ](x: f64) -> (r: f64)
+    ensures
+        f64_abs_rel(x, r),
+;
 
 pub assume_specification[ f64::is_nan ](x: f64) -> (r: bool)
     ensures
